@@ -5,7 +5,7 @@
 From Coq Require Import List ZArith Lia Bool.
 Import ListNotations.
 From CAres.Wire Require Import Cursor Name Record Parse Escape Escape_proofs RefDecode Name_ref Write Write_name Write_host
-     Write_name2 Write_pos Write_patch.
+     Write_name2 Write_pos Write_patch Write_name3.
 From CAres.Gen Require Import Consts LeafFns Tables.
 Local Open Scope Z_scope.
 
@@ -114,41 +114,49 @@ Proof.
   - unfold w_live. cbn [w_rev]. rewrite !rev_append_rev, !app_nil_r. apply rev_involutive.
 Qed.
 
+(* canonical presentation text of a name given in any valid text *)
+Definition name_labels (n : list N) : list (list N) :=
+  match split_dns_name false n with Ok ls => ls | _ => [] end.
+Definition canon (n : list N) : list N := escape_name (name_labels n).
+
+Lemma canon_of v n ls : split_dns_name v n = Ok ls -> canon n = escape_name ls.
+Proof. intros H. unfold canon, name_labels. rewrite (split_mode v n ls H). reflexivity. Qed.
+
+Lemma canon_canonical ls :
+  Forall label_ok ls -> wire_len ls <= 256 -> canon (escape_name ls) = escape_name ls.
+Proof. intros Hls Hw. apply (canon_of false). apply (split_dns_name_canonical_v false ls Hls Hw). intros G; discriminate G. Qed.
+
 (* a name written against an offset list decodes in any context of the right length in which the
-   registered names decode (fixed variant) *)
-Lemma name_enc_ok (v : bool) C ol ls x nl' :
-  ol_ok C ol -> Forall label_ok ls -> wire_len ls <= 256 -> slen (escape_name ls) < 512 ->
-  (v = true -> Forall host_label ls) ->
-  name_enc wfixed (Z.of_nat (length C)) (Some ol) v (escape_name ls) = Ok (x, nl') ->
-  exists ol', nl' = Some ol' /\ ol_ok (C ++ x) ol' /\ bytes_ok x /\
+   registered names decode (fixed variant); the text may be any valid presentation text *)
+Lemma name_enc_ok (v : bool) C ol name ls x nl' :
+  ol_okg C ol -> split_dns_name v name = Ok ls -> Forall label_ok ls -> slen name < 512 ->
+  name_enc wfixed (Z.of_nat (length C)) (Some ol) v name = Ok (x, nl') ->
+  exists ol', nl' = Some ol' /\ ol_okg (C ++ x) ol' /\ bytes_ok x /\
               forall post, ref_name (C ++ x ++ post) (length C) = Some (ls, (length C + length x)%nat).
 Proof.
-  intros Hol Hls Hw Ht Hv He.
+  intros Hol Hsp Hls Ht He.
   destruct (wb_of_live_is C) as (Hwf & Hfr & Hlive). set (b := wb_of_live C [] false) in *.
-  pose proof (name_write_enc wfixed 0 b (Some ol) v (escape_name ls)) as W.
+  pose proof (name_write_enc wfixed 0 b (Some ol) v name) as W.
   cbn [wfixed wv_msg_relative] in W. rewrite (wb_len_live b Hwf), Hlive, Z.sub_0_r, He in W.
   destruct W as (b' & Ew & Hl' & _).
-  destruct (name_write_compressed v b [] C ol ls Hwf Hlive Hol Hls Hw Ht Hv b' nl' Ew)
+  destruct (name_write_gen v b [] C ol name ls Hwf Hlive Hol Hsp Hls Ht b' nl' Ew)
     as (more & ol' & -> & _ & Hlive' & Hol' & Hmb & Href).
   cbn [app] in Hlive'. rewrite Hlive' in Hl'. apply app_inv_head in Hl'. subst more.
   exists ol'. split; [reflexivity | split; [exact Hol' | split; [exact Hmb | exact Href]]].
 Qed.
 
 (* ... and without a list (types that must not be compressed): labels and the root octet *)
-Lemma name_enc_none wv pos ls :
-  Forall label_ok ls -> wire_len ls <= 256 -> slen (escape_name ls) < 512 ->
-  name_enc wv pos None false (escape_name ls) = Ok (enc_labels ls ++ [0%N], None).
+Lemma name_enc_none wv pos name ls :
+  split_dns_name false name = Ok ls -> Forall label_ok ls -> slen name < 512 ->
+  name_enc wv pos None false name = Ok (enc_labels ls ++ [0%N], None).
 Proof.
-  intros Hls Hw Ht.
-  set (b := wb_of_live [] [] false).
-  pose proof (name_write_enc wv 0 b None false (escape_name ls)) as W.
-  destruct (name_write_uncompressed wv 0 b ls Hls Hw Ht) as (b' & Ew & Hl').
-  (* the pure function does not look at the position when there is no list *)
-  assert (Hpos : forall p q, name_enc wv p None false (escape_name ls) = name_enc wv q None false (escape_name ls)) by reflexivity.
-  rewrite (Hpos pos (if wv_msg_relative wv then wb_len b - 0 else wb_len b)).
-  destruct (name_enc wv _ None false (escape_name ls)) as [[x nl']| |].
-  - destruct W as (b'' & Ew' & Hl'' & _). rewrite Ew in Ew'. injection Ew' as <- <-.
-    rewrite Hl' in Hl''. apply app_inv_head in Hl''. subst x. reflexivity.
-  - rewrite Ew in W. discriminate W.
-  - rewrite Ew in W. discriminate W.
+  intros Hsp Hls Ht. unfold name_enc. cbv zeta.
+  replace (slen name >=? 512) with false by (symmetry; rewrite Z.geb_leb; apply Z.leb_gt; exact Ht). rewrite andb_false_r.
+  assert (Hcopy : firstn 511 name = name) by (apply firstn_all2; unfold slen in Ht; lia).
+  rewrite Hcopy. cbn [negb]. rewrite Hsp. cbn [bind].
+  assert (He : emit_bytes ls = enc_labels ls).
+  { clear -Hls. induction Hls as [|l ls Hl Hls IH]; [reflexivity|]. cbn [emit_bytes enc_labels flat_map]. fold (emit_bytes ls). fold (enc_labels ls).
+    rewrite IH. f_equal. f_equal. destruct Hl as (_ & _ & H63). unfold slen. change 255 with (Z.ones 8). rewrite !Z.land_ones by lia.
+    rewrite Z.mod_mod by lia. rewrite Z.mod_small by (change (2 ^ 8) with 256; lia). rewrite <- nat_N_Z. apply N2Z.id. }
+  rewrite He, app_nil_r. reflexivity.
 Qed.
